@@ -1,5 +1,7 @@
 // znrun runs one Zn program (stdin) through the harness's real-interpreter seam
 // and prints the classified outcome.  A manual exploration aid; no check uses it.
+// With -raw it runs the program through exec.Interpreter.Execute and prints the
+// rendered error exactly as a user sees it.
 package main
 
 import (
@@ -7,11 +9,23 @@ import (
 	"io"
 	"os"
 
+	"github.com/DemoHn/Zn/pkg/exec"
+	r "github.com/DemoHn/Zn/pkg/runtime"
+
 	"verif/engine/zn"
 )
 
 func main() {
 	b, _ := io.ReadAll(os.Stdin)
+	if len(os.Args) > 1 && os.Args[1] == "-raw" {
+		v, err := exec.NewInterpreter("x").SetExternalLibs(zn.Libs()).LoadScript([]rune(string(b))).Execute(r.ElementMap{})
+		if err != nil {
+			fmt.Println(exec.DisplayError(err))
+			return
+		}
+		fmt.Println("OK", v)
+		return
+	}
 	o := zn.RunReal(string(b), nil)
 	switch {
 	case o.Panic != "":
